@@ -119,7 +119,7 @@ def parseMode (s : String) : Option Mode :=
   else none
 
 def stepLine (dflt : DT) (line : String) : DT × String :=
-  let cfg : Cfg := ⟨LinOp.Generated.C14.layoutOf, dflt⟩
+  let cfg : Cfg := ⟨LinOp.Generated.C14.layoutOf, dflt, LinOp.Generated.C14.baseToGuardsKind⟩
   match words line with
   | ["default", d] => (match parseDT d with | some d => (d, "ok") | none => (dflt, "bad-dtype"))
   | cmd :: rest =>
